@@ -215,10 +215,9 @@ Definition satisfiesb (s : node) : bool :=
    nodup_keys, not a finding): an aliased repeat and a merged-in entry ARE the
    objects met before, so no anchored node occurs for the first time inside
    them.  It is asked only where the search relies on it: beneath an aliased
-   value / element the options exclude, and inside a merged-in entry when
-   neither alias option is on.  (Beneath the value of an excluded aliased key,
-   and beneath a matched key, the search records the anchors itself:
-   record_anchors.) *)
+   value / element the options exclude.  (Inside a merged-in entry hidden by
+   the options, beneath the value of an excluded aliased key, and beneath a
+   matched key, the search records the anchors itself: record_anchors.) *)
 Fixpoint shared_closed (mt : mtable) (o : opts) (n : node) (pre : list node) {struct n} : bool :=
   match n with
   | NSeq _ els =>
@@ -231,7 +230,7 @@ Fixpoint shared_closed (mt : mtable) (o : opts) (n : node) (pre : list node) {st
       all_at entry_occs
              (fun pre pos kv =>
                 let pre2 := ((pre ++ self_occ (fst kv)) ++ self_occ (snd kv))%list in
-                if skip_merged mt o (oid i) pos then all_rep pre (entry_occs kv)
+                if skip_merged mt o (oid i) pos then true
                 else if negb (o_kalias o) && is_repeat pre (fst kv) then true
                 else if negb (o_valias o) && is_repeat (pre ++ self_occ (fst kv)) (snd kv)
                      then all_rep pre2 (anc_occs (snd kv))
@@ -272,10 +271,10 @@ End Spec.
      means for a rose tree that repeats a shared object at every place it is
      reachable;
    - [c07_keys_leaf d]: mapping keys and set members are scalars;
-   - [merged_closed mt d []]: a merged-in entry (merge table) holds only
-     objects met before in document order - `<<: *x` can only refer to a
-     mapping that stands earlier in the document.
-   None of the three mentions the search options. *)
+   Neither mentions the search options or the merge table: a merged-in entry
+   hidden by the options is walked by record_anchors, so nothing is asked of
+   it (the former third part [merged_closed], false for an inline merge
+   source that first defines an anchor, is gone). *)
 Definition opt_string_beq (a b : option string) : bool :=
   match a, b with
   | None, None => true
@@ -344,18 +343,5 @@ Fixpoint c07_keys_leaf (n : node) : bool :=
   | NSet _ els => forallb is_leaf els
   end.
 
-Fixpoint merged_closed (mt : mtable) (n : node) (pre : list node) {struct n} : bool :=
-  match n with
-  | NSeq _ els =>
-      all_at elem_occs (fun pre (_ : nat) e => merged_closed mt e (pre ++ self_occ e)%list) els 0 pre
-  | NMap i kvs =>
-      all_at entry_occs
-             (fun pre pos kv =>
-                (if is_merged mt (oid i) pos then all_rep pre (entry_occs kv) else true) &&
-                merged_closed mt (snd kv) ((pre ++ self_occ (fst kv)) ++ self_occ (snd kv))%list)
-             kvs 0 pre
-  | _ => true
-  end.
-
-Definition doc_wf (mt : mtable) (d : node) : bool :=
-  same_oid_same_tree d && c07_keys_leaf d && merged_closed mt d [].
+Definition doc_wf (d : node) : bool :=
+  same_oid_same_tree d && c07_keys_leaf d.
